@@ -17,6 +17,8 @@ var verifAncestors = map[string][]string{
 	"FHIR.string": {"FHIR.string", "FHIR.Element"}, "FHIR.code": {"FHIR.code", "FHIR.string", "FHIR.Element"},
 	"FHIR.positiveInt": {"FHIR.positiveInt", "FHIR.integer", "FHIR.Element"}, "FHIR.canonical": {"FHIR.canonical", "FHIR.uri", "FHIR.Element"},
 	"FHIR.Patient": {"FHIR.Patient", "FHIR.DomainResource", "FHIR.Resource"},
+	"FHIR.Age": {"FHIR.Age", "FHIR.Quantity", "FHIR.Element"}, "FHIR.Duration": {"FHIR.Duration", "FHIR.Quantity", "FHIR.Element"},
+	"FHIR.SimpleQuantity": {"FHIR.SimpleQuantity", "FHIR.Quantity", "FHIR.Element"}, "FHIR.Quantity": {"FHIR.Quantity", "FHIR.Element"},
 	"FHIR.Reference": {"FHIR.Reference", "FHIR.Element"}, "FHIR.Extension": {"FHIR.Extension", "FHIR.Element"},
 	"FHIR.HumanName": {"FHIR.HumanName", "FHIR.Element"}, "FHIR.boolean": {"FHIR.boolean", "FHIR.Element"},
 }
@@ -24,7 +26,7 @@ var verifAncestors = map[string][]string{
 var verifIsTargets = [][2]string{{"System", "Integer"}, {"System", "String"}, {"System", "Boolean"}, {"System", "Any"},
 	{"FHIR", "string"}, {"FHIR", "code"}, {"FHIR", "integer"}, {"FHIR", "positiveInt"}, {"FHIR", "uri"}, {"FHIR", "canonical"},
 	{"FHIR", "boolean"}, {"FHIR", "Element"}, {"FHIR", "HumanName"}, {"FHIR", "Patient"}, {"FHIR", "Resource"}, {"FHIR", "DomainResource"}, {"FHIR", "BackboneElement"},
-	{"FHIR", "Reference"}, {"FHIR", "Extension"}}
+	{"FHIR", "Reference"}, {"FHIR", "Extension"}, {"FHIR", "Quantity"}, {"FHIR", "Age"}, {"FHIR", "Duration"}, {"FHIR", "SimpleQuantity"}}
 
 // C12: `x is T` is true exactly when x's declared type is T or derives from T; `x as T` is x itself when
 // `x is T` and empty otherwise; the singleton rule applies.
@@ -32,7 +34,7 @@ func VerifHarness_C12_IsAs() {
 	var x any
 	var decl string
 	var unwrapped any // what `as` yields, when that is not x itself
-	switch verifrt.Choose("kind", 13) {
+	switch verifrt.Choose("kind", 17) {
 	case 9:
 		x, decl = &ppb.Patient{Id: &dtpb.Id{Value: "p"}}, "FHIR.Patient"
 	case 10:
@@ -55,6 +57,15 @@ func VerifHarness_C12_IsAs() {
 	case 12:
 		// likewise an Extension whose value[x] is set is an Extension (its value is reached by .value)
 		x, decl = &dtpb.Extension{Url: &dtpb.Uri{Value: "u"}, Value: &dtpb.Extension_ValueX{Choice: &dtpb.Extension_ValueX_StringValue{StringValue: &dtpb.String{Value: "v"}}}}, "FHIR.Extension"
+	case 13:
+		// the specialisations of Quantity are types of their own (and Quantities)
+		x, decl = &dtpb.Age{Value: &dtpb.Decimal{Value: "5"}, Code: &dtpb.Code{Value: "a"}}, "FHIR.Age"
+	case 14:
+		x, decl = &dtpb.Duration{Value: &dtpb.Decimal{Value: "5"}, Code: &dtpb.Code{Value: "h"}}, "FHIR.Duration"
+	case 15:
+		x, decl = &dtpb.SimpleQuantity{Value: &dtpb.Decimal{Value: "5"}}, "FHIR.SimpleQuantity"
+	case 16:
+		x, decl = &dtpb.Quantity{Value: &dtpb.Decimal{Value: "5"}}, "FHIR.Quantity"
 	case 0:
 		x, decl = system.Integer(verifrt.NondetInt32("i")), "System.Integer"
 	case 1:
